@@ -16,10 +16,14 @@ BASE_INV = ["TypeOK", "Protocol", "ParamsOnlyInBatch", "ListOrder", "StopHonoure
             "StepProtocol", "SchedOncePerEpoch", "EachRowOnce", "OwnBasis", "OnSchedule", "FirstHit"]
 
 
-def mc(cfgs_text, maxinj=1, invariants=BASE_INV, export=True, liveness=False, timeout=900,
+def mc(cfgs, maxinj=1, invariants=BASE_INV, export=True, liveness=False, timeout=900,
        workers=16, simulate=None, depth=None, seed=None):
+    """cfgs: TLA+ text of a set of configurations, or a list of such texts (one shard each)."""
     inv = list(invariants) + (["MC_Export"] if export else [])
-    return tlc.run("Train", constants={"MaxInj": maxinj}, defs={"Cfgs": cfgs_text},
+    shards = [cfgs] if isinstance(cfgs, str) else list(cfgs)
+    body = " [] ".join("s = %d -> %s" % (i + 1, t) for i, t in enumerate(shards))
+    return tlc.run("Train", constants={"MaxInj": maxinj},
+                   defs={"Shards": "1..%d" % len(shards), "CfgsOf(s)": "CASE " + body},
                    spec="Spec" if liveness else None,
                    properties=["Terminates"] if liveness else (),
                    invariants=inv, extends_extra=["Json"], extra_text=EXPORT if export else "",
@@ -58,6 +62,25 @@ def compare_run(check, beh, real, key_prefix):
     for f in ("stop", "pver", "sched"):
         if fin[f] != real[f]:
             check.violation("%s:final-%s" % (key_prefix, f), dict(cfg=cfg, expected=fin[f], got=real[f]))
+            ok = False
+    # per-callback records (evaluator epochs and values, logger epochs, saver names, stopper epoch)
+    for i, d in enumerate(cfg["cbs"]):
+        exp = fin.get("cbs", [None] * len(cfg["cbs"]))[i] if "cbs" in fin else None
+        if exp is None:
+            continue
+        got = real["cbs"][i]
+        if d["t"] == "eval":
+            e2 = [[r[0], r[1]] for r in exp]
+            g2 = [[r[0], r[1]] for r in got]
+        elif d["t"] == "saver":
+            e2, g2 = [r[0] for r in exp], [r[0] for r in got]
+        elif d["t"] in ("logger", "early"):
+            e2, g2 = list(exp), list(got)
+        else:
+            continue
+        if e2 != g2:
+            check.violation("%s:callback-record:%s" % (key_prefix, d["t"]),
+                            dict(cfg=cfg, callback=i + 1, expected=e2, got=g2))
             ok = False
     # parameters may change only between a batch start and its batch end
     hs = real["hashes"]
@@ -136,7 +159,7 @@ def validate_traces(lines, timeout=900):
         with open(path, "w") as fh:
             for ln in lines:
                 fh.write(json.dumps(ln) + "\n")
-        res = tlc.run("TraceTrain", constants={"MaxInj": 3}, defs={"Cfgs": "TraceCfgs"},
+        res = tlc.run("TraceTrain", constants={"MaxInj": 3}, defs={"Shards": "{}", "CfgsOf(s)": "NoCfgs(s)"},
                       init="TInit", next="TNext", constraints=["Track"], postcondition="Verdicts",
                       invariants=BASE_INV, workers=1, timeout=timeout, env={"TRACE_FILE": path})
     finally:
